@@ -510,7 +510,11 @@ class IRGenerator:
                     'Bad arguments to annotation type %s.' %
                     quote(item.annotation_type), item.lineno, item.path)
         else:
-            if item.annotation_type_ns is not None:
+            # A namespace cannot import itself; a reference qualified with the
+            # namespace's own name is reported as not imported when the
+            # annotation type is resolved.
+            if (item.annotation_type_ns is not None and
+                    item.annotation_type_ns != namespace.name):
                 namespace.add_imported_namespace(
                     self.api.ensure_namespace(item.annotation_type_ns),
                     imported_annotation_type=True)
